@@ -70,6 +70,7 @@ def cli_config(case, props, run=True):
     ov.install()
     try:
         sink = io.StringIO()
+        dic = {}
         try:
             with contextlib.redirect_stdout(sink), contextlib.redirect_stderr(sink):
                 objs, dic = tt.load(spec)
@@ -94,7 +95,24 @@ def cli_config(case, props, run=True):
 
             tb = [fr for fr in traceback.extract_tb(e.__traceback__) if "/torchtree/" in fr.filename.replace(os.sep, "/")]
             where = ("%s.%s" % (os.path.basename(tb[-1].filename)[:-3], tb[-1].name)) if tb else "?"
-            res["run"] = {"ok": False, "exception": type(e).__name__, "where": where, "message": str(e)[:200], "stage": "run" if res["counters"].get("cli_targets_evaluated") else "load"}
+            nonfinite = False
+            try:
+                from torchtree.core.abstractparameter import AbstractParameter
+
+                for o in dic.values():
+                    if isinstance(o, AbstractParameter):
+                        try:
+                            t = o.tensor
+                            if t.is_floating_point() and not bool(torch.isfinite(t).all()):
+                                nonfinite = True
+                                break
+                        except Exception:
+                            nonfinite = True
+                            break
+            except Exception:
+                pass
+            res["run"] = {"ok": False, "exception": type(e).__name__, "where": where, "message": str(e)[:200], "stage": "run" if res["counters"].get("cli_targets_evaluated") else "load",
+                          "nonfinite_state": nonfinite}
             res["counters"]["cli_failed_" + res["run"]["stage"]] = 1
     finally:
         ov.uninstall()
